@@ -149,6 +149,9 @@ pub struct MAdapter {
     pub done: bool,
     pub calls: u32,
     pub owned: Vec<u32>,
+    /// Duplex: the stream half returned None / the sink half was closed
+    pub ended: bool,
+    pub closed: bool,
 }
 
 /// (flat op index, index among the sends of that flat op)
@@ -762,6 +765,8 @@ impl Model {
                         done: false,
                         calls: 0,
                         owned: owned.clone(),
+                        ended: false,
+                        closed: false,
                     },
                 );
             }
@@ -898,9 +903,26 @@ impl Model {
                 | (AKind::Stream, AMethod::PollNext, AOutcome::End)
                 | (AKind::Sink, AMethod::PollClose, AOutcome::Value)
                 | (AKind::Sink, AMethod::PollClose, AOutcome::Error)
+                | (AKind::Duplex, AMethod::PollNext, AOutcome::End)
+                | (AKind::Duplex, AMethod::PollClose, AOutcome::Value)
+                | (AKind::Duplex, AMethod::PollClose, AOutcome::Error)
         );
         let adm = self.adapters.get_mut(&a).unwrap();
         adm.calls += 1;
+        if kind == AKind::Duplex && finishing {
+            if method == AMethod::PollNext {
+                adm.ended = true;
+            } else {
+                adm.closed = true;
+            }
+            // the span goes with the first half that finishes; the object stays in use
+            if let Some(s) = adm.span.take() {
+                self.finish_span(s);
+            }
+            let adm = self.adapters.get_mut(&a).unwrap();
+            adm.done = adm.ended && adm.closed;
+            return;
+        }
         if outcome == AOutcome::Panic {
             // not polled again; its span lives until the adapter is dropped
             adm.done = true;
